@@ -28,7 +28,9 @@ for d in $DIRS; do
   case "$d" in /*) ;; *) d="$PWD/$d";; esac
   id=$(basename "$d")
   [ -f "$d/patch.diff" ] || continue
-  target=$(python3 -c "import json,sys;print(json.load(open('$d/meta.json'))['property'])" 2>/dev/null)
+  # the property a change was written against; a change whose real subject is another property (meta.json
+  # "reported_by_property", with the reason in "verif_note") is counted under that one
+  target=$(python3 -c "import json,sys;m=json.load(open('$d/meta.json'));print(m.get('reported_by_property') or m['property'])" 2>/dev/null)
   git -C "$WT" checkout -q -- . && git -C "$WT" clean -qfd
   if ! git -C "$WT" apply "$d/patch.diff" 2>/dev/null; then echo "$id SKIP: patch does not apply"; continue; fi
   if ! (cd "$WT" && go build ./... >/dev/null 2>&1); then echo "$id SKIP: does not compile"; continue; fi
